@@ -350,6 +350,8 @@ class Oracle:
         sim = self.sim
         ops = "+".join(sorted(r["recipe"]["op"] for r in reqs)) + ("/same-token" if st.get("same_token") else "")
         sim.check("c17-burst")
+        if sum(1 for r in reqs if r["recipe"]["op"] == "upload") >= 2:
+            self.concurrent_uploads = True
         if outcome.get("interleaved"):
             sim.world.probe("c17.burst-interleaved")
         for rule, detail in referential_violations(outcome["state"], self.world.blob_dir):
@@ -382,34 +384,39 @@ class Oracle:
         else:
             sim.world.probe(f"c17.manifest-{resp.status}")
 
+    def rb(self, subject: str) -> str:
+        """Read-back subjects carry a regime tag once uploads have been served concurrently in this run."""
+        return subject + ("/after-concurrent-upload" if getattr(self, "concurrent_uploads", False) else "")
+
     def on_readback_unknown(self, actor, directory: str, name: str) -> None:
         self.sim.check("c17-readback")
-        self.sim.violate("readback-unknown-bytes", "stored", f"the stored file of {directory}/{name} carries payloads of no upload")
+        self.sim.violate("readback-unknown-bytes", self.rb("stored"),
+                         f"the stored file of {directory}/{name} carries payloads of no upload")
 
     def on_readback(self, actor, directory: str, name: str, how: str, url: str, resp: Response, rec: dict) -> None:
         sim = self.sim
         sim.check("c17-readback")
         if resp.status >= 500:
-            sim.violate("readback-5xx", how.split("#")[0], f"{resp.status} for {url}")
+            sim.violate("readback-5xx", self.rb(how.split("#")[0]), f"{resp.status} for {url}")
             return
         if resp.status not in (200, 206):
-            sim.violate("readback-refused", how.split("#")[0],
+            sim.violate("readback-refused", self.rb(how.split("#")[0]),
                         f"uploaded and indexed file {directory}/{name} answered {resp.status} for {url}")
             return
         if how == "odvod":
             blob_files = sorted((self.world.blob_dir / directory).glob("*"))
             ok = any(p.is_file() and p.read_bytes() == resp.body for p in blob_files)
             if not ok:
-                sim.violate("readback-bytes", "odvod", f"{url}: body ({len(resp.body)} bytes) equals no stored file")
+                sim.violate("readback-bytes", self.rb("odvod"), f"{url}: body ({len(resp.body)} bytes) equals no stored file")
         else:
             try:
                 seg = isobmff.media_segment(resp.body)
             except Exception as err:  # noqa: BLE001
-                sim.violate("readback-malformed", "vod", f"{url}: {err}")
+                sim.violate("readback-malformed", self.rb("vod"), f"{url}: {err}")
                 return
             sha = hashlib.sha1(seg.payload).hexdigest()
             if rec.get("payloads") and sha not in rec["payloads"]:
-                sim.violate("readback-payload", "vod", f"{url}: payload is none of the uploaded file's segments")
+                sim.violate("readback-payload", self.rb("vod"), f"{url}: payload is none of the uploaded file's segments")
 
 
 def execute(spec: dict) -> dict:
